@@ -200,6 +200,8 @@ inline Swarm swarm(uint64_t seed, Profile prof) {
             // one output that receives more than 2^16 blocks (counters narrower than size_t wrap here); tiny records, tiny blocks
             s.sets.resize(1);
             s.late_sets.clear();
+            s.sets[0] = CDNS::BlockParameters();   // (no optional members: this profile is about counters, and 65 536 blocks are compared one by one)
+            s.sets[0].storage_parameters.ticks_per_second = r.pick(std::vector<uint64_t>{1, 1000, 1000000});
             s.sets[0].storage_parameters.max_block_items = 1;
             s.sets[0].storage_parameters.storage_hints = CDNS::StorageHints();
             s.density_pm = 0; s.stats_pm = 0; s.big_pm = 0; s.untimed_pm = 1000; s.force_storable = true;
